@@ -214,8 +214,8 @@ _REANCHOR = {
     "trailing write after the commit": (
         "            if \"a\" in self.mode:\n                self._write_flush()\n", "            if \"a\" in self.mode:\n                self._write_flush()\n                self.fp.write(b\"\")\n"),
     "rollback removed from write()": (
-        "        except Exception:\n            # the source could not be archived: forget the member so that the archive stays consistent\n            self.header.files_info.files.pop()\n            self.header.files_info.emptyfiles.pop()\n            self.files.pop()\n            # what has already gone into the packed stream cannot be taken back\n            self._broken = self._broken or folder.get_compressor().consumed != taken\n            raise\n\n    def writef",
-        "        except Exception:\n            raise\n\n    def writef"),
+        "        except BaseException:\n            # the source could not be archived (or the call was interrupted): forget the member so that the archive stays consistent\n            self.header.files_info.files.pop()\n            self.header.files_info.emptyfiles.pop()\n            self.files.pop()\n            # what has already gone into the packed stream cannot be taken back\n            self._broken = self._broken or folder.get_compressor().consumed != taken\n            raise\n\n    def writef",
+        "        except BaseException:\n            raise\n\n    def writef"),
     "rollback forgets self.files": (
         "                self.header.files_info.files.pop()\n                self.header.files_info.emptyfiles.pop()\n                self.files.pop()\n                # what has already gone",
         "                self.header.files_info.files.pop()\n                self.header.files_info.emptyfiles.pop()\n                # what has already gone"),
@@ -226,6 +226,18 @@ _REANCHOR = {
         "        try:\n            if \"w\" in self.mode or \"x\" in self.mode:\n                self._write_flush()\n",
         "        self._fpclose()\n        try:\n            if \"w\" in self.mode or \"x\" in self.mode:\n                self._write_flush()\n"),
 }
+_REANCHOR.update({
+    "only the last task joined": (
+        "                        for p in concurrent_tasks:\n                            p.join()\n", "                        p.join()\n"),
+    "header written before the folder flush": (
+        "                if self.header._initialized:\n                    folder = self.header.main_streams.unpackinfo.folders[-1]\n                    self.worker.flush_archive(self.fp, folder)\n                self._write_header()\n",
+        "                self._write_header()\n                if self.header._initialized:\n                    folder = self.header.main_streams.unpackinfo.folders[-1]\n                    self.worker.flush_archive(self.fp, folder)\n"),
+    "sanitiser returns before the isabs test": (
+        "        if os.path.isabs(path) or re.match(\"^[a-zA-Z]:\", path):\n            # Path is absolute even after stripping.\n            raise AbsolutePathError(arcname)\n        # a source named",
+        "        # a source named"),
+    "t ignores the verdict": (
+        "                if a.test() is not False and a.testzip() is None:\n", "                a.testzip()\n                if a.test() is not False:\n"),
+})
 for _w in WITNESSES:
     if _w["name"] in _REANCHOR:
         _w["old"], _w["new"] = _REANCHOR[_w["name"]]
